@@ -176,6 +176,8 @@ def run_tlc(module, cfg_kwargs, *, workers=16, simulate=None, depth=None, seed=N
         if env:
             e.update(env)
         t0 = time.time()
+        if simulate is not None:
+            timeout = min(timeout, 900 + simulate["num"] // 5)    # a simulator whose worker thread died waits forever
         try:
             p = subprocess.run(cmd, cwd=work, env=e, capture_output=True, text=True, timeout=timeout)
         except subprocess.TimeoutExpired:
@@ -213,6 +215,8 @@ def run_tlc(module, cfg_kwargs, *, workers=16, simulate=None, depth=None, seed=N
             r.violated = "postcondition"
         if r.violated:
             r.trace = parse_error_trace(out)
+        if "Exception in thread" in out or "Exception in thread" in p.stderr:
+            raise TlcError("TLC worker thread threw (%s):\n%s" % (module, (out + p.stderr)[-2000:]))
         finished = ("Model checking completed. No error has been found." in out) or \
                    (simulate is not None and ("Finished in" in out or "simulation" in out.lower()))
         if not r.violated and not finished:
